@@ -169,10 +169,14 @@ impl Scenario for Codec {
         if !big && rng.chance(8) {
             // > 64 KiB of incompressible data as a long run of tiny writes (no flush), then the
             // rest in one large write
+            // the run of tiny writes totals a little less or a little more than a power-of-two
+            // buffer size (16, 32, 64 KiB): where a coalescing or encoder buffer is about to spill
             let c = 1 + rng.below(511) as u32;
-            let m = (66_000 / c + 1 + rng.below(50) as u32).min(70_000);
+            let edge = *rng.pick(&[65_536u32, 65_536, 65_536, 32_768, 16_384]);
+            let total = edge - 2500 + rng.below(3000) as u32;
+            let m = (total / c).clamp(1, 70_000);
             chunks = Xfer::Script(vec![c; m as usize]);
-            len = (c * m + 600 + rng.below(60_000) as u32).max(70_000);
+            len = c * m + 600 + rng.below(60_000) as u32;
             kind = 4;
         }
         let mut pol = Policy::draw(rng, asyncish);
